@@ -198,16 +198,18 @@ pub fn exec(op: &str, t: &mut Toks, cx: &mut Ctx) -> Option<String> {
     match op { "krylov" => Some(krylov(t, cx, false)), "krylov9" => Some(krylov(t, cx, true)), "krylovv" => Some(krylov_vecs(t, cx)), _ => None }
 }
 
+thread_local! { static DENS: std::cell::Cell<Option<usize>> = std::cell::Cell::new(None); static DOM: std::cell::Cell<f64> = std::cell::Cell::new(1.0); }
 /// dense system of one of the quantified kinds, returned as rows
 fn system(rng: &mut Rng, n: usize, class: &str) -> Vec<Vec<f64>> {
     let dens = *rng.pick(&[10usize, 25, 50]);
+    let dens = DENS.with(|d| d.get()).unwrap_or(dens);
     let off = |rng: &mut Rng| if rng.chance(dens) { rng.range(-8, 8) as f64 / 4.0 } else { 0.0 };
     let mut a = vec![vec![0.0f64; n]; n];
     match class {
         "spd" => { // M^T M + I with sparse M
             let m: Vec<Vec<f64>> = (0..n).map(|_| (0..n).map(|_| off(rng)).collect()).collect();
             for i in 0..n { for j in 0..n { let mut s = 0.0; for k in 0..n { s += m[k][i] * m[k][j]; } a[i][j] = s + if i == j { 1.0 } else { 0.0 }; } } }
-        "dd" => { let neg = rng.chance(25); for i in 0..n { let mut s = 0.0; for j in 0..n { if i != j { a[i][j] = off(rng); s += a[i][j].abs(); } } a[i][i] = (s + 1.0 + rng.below(3) as f64) * if neg { -1.0 } else { 1.0 }; } }
+        "dd" => { let neg = rng.chance(25); for i in 0..n { let mut s = 0.0; for j in 0..n { if i != j { a[i][j] = off(rng); s += a[i][j].abs(); } } a[i][i] = (s * DOM.with(|d| d.get()) + 1.0 + rng.below(3) as f64) * if neg { -1.0 } else { 1.0 }; } }
         "nonsym" => { for i in 0..n { for j in 0..n { a[i][j] = off(rng); } a[i][i] += 3.0; } }
         "indef" => { for i in 0..n { for j in 0..=i { let v = off(rng); a[i][j] = v; a[j][i] = v; } a[i][i] += if i % 2 == 0 { 4.0 } else { -4.0 }; } }
         "illcond" => { for i in 0..n { for j in 0..n { a[i][j] = 1.0 / ((i + j + 1) as f64); } } }        // Hilbert
@@ -307,6 +309,18 @@ pub fn gen(rng: &mut Rng, tier: Tier, out: &mut Vec<String>) {
         for solver in SOLVERS { out.push(format!("krylov {} bad {} {} {} {} {} 10 {} {}", solver, rows, cols, trips_of(rng, &a), vstr(&vec![1.0; bl]), vstr(&vec![0.0; xl]), (1e-8f64).wr(), itol)); }
     }
     for solver in SOLVERS { out.push(format!("krylov {} bad 2 3 2 0 0 {} 1 2 {} {} {} 10 {} 1", solver, (1.0f64).wr(), (2.0f64).wr(), vstr(&[1.0, 1.0]), vstr(&[0.0, 0.0]), (1e-8f64).wr())); }
+    // FULL (or nearly full) matrices of order 9 .. 24: columns with 9, 10, 11, 13 ... stored entries (a product kernel that is
+    // unrolled or blocked over the entries of a column has its remainder loop exercised only here)
+    for i in 0..(if tier == Tier::Quick { 6 } else { 120 }) {
+        let n = 9 + rng.below(16);
+        DENS.with(|d| d.set(Some(if i % 2 == 0 { 100 } else { 85 }))); DOM.with(|d| d.set(3.0));   // strongly dominant: the two-sided Lanczos process is benign here
+        for solver in SOLVERS {
+            let class = if solver == "cg" { "spd" } else { "dd" };
+            let tol: f64 = *rng.pick(&[1e-10, 1e-8, 1e-6]);
+            out.push(one(rng, "krylov", solver, class, n, i % 2, 1000, tol, 1.0, 1));
+        }
+        DENS.with(|d| d.set(None)); DOM.with(|d| d.set(1.0));
+    }
 }
 
 pub fn gen_c09(rng: &mut Rng, tier: Tier, out: &mut Vec<String>) {
@@ -329,5 +343,17 @@ pub fn gen_c09(rng: &mut Rng, tier: Tier, out: &mut Vec<String>) {
             // zero right-hand side with a NON-zero guess: the dense solution is the zero vector, the solver must get there
             if i % 6 == 4 { out.push(one(rng, "krylov9", solver, class, n, 1, 1000, tol.max(1e-10), 0.0, 1 + (i % 2))); }
         }
+    }
+    // FULL (or nearly full) matrices of order 9 .. 24: columns with 9, 10, 11, 13 ... stored entries (a product kernel that is
+    // unrolled or blocked over the entries of a column has its remainder loop exercised only here)
+    for i in 0..(if tier == Tier::Quick { 6 } else { 120 }) {
+        let n = 9 + rng.below(16);
+        DENS.with(|d| d.set(Some(if i % 2 == 0 { 100 } else { 85 }))); DOM.with(|d| d.set(3.0));   // strongly dominant: the two-sided Lanczos process is benign here
+        for solver in SOLVERS {
+            let class = if solver == "cg" { "spd" } else { "dd" };
+            let tol: f64 = *rng.pick(&[1e-10, 1e-8, 1e-6]);
+            out.push(one(rng, "krylov9", solver, class, n, i % 2, 1000, tol, 1.0, 1));
+        }
+        DENS.with(|d| d.set(None)); DOM.with(|d| d.set(1.0));
     }
 }
